@@ -209,7 +209,11 @@ class _MaskedArrayFunc(object):
 
         # transform back to numpy array
         if np.ma.isMaskedArray(result):
-            result = result.filled(np.nan)
+            if result.dtype.kind == 'b':
+                # all / any: an all-NaN slice has no valid element (nan would be cast to True)
+                result = result.filled(self.__name__ == 'all')
+            else:
+                result = result.filled(np.nan)
 
         return result
 
